@@ -327,3 +327,117 @@ Proof.
   - apply ledger_of_chain_L. assumption.
   - intros w. apply report_L. assumption.
 Qed.
+
+(* ---------------------------------------------------------------- rollback (T2) *)
+
+Lemma filter_all_true : forall (A : Type) (f : A -> bool) l, (forall x, In x l -> f x = true) -> filter f l = l.
+Proof.
+  intros A f l. induction l as [|x l IH]; intros H; [reflexivity|].
+  cbn [filter]. rewrite (H x (or_introl eq_refl)). f_equal. apply IH. intros y Hy. apply H. right. assumption.
+Qed.
+
+Lemma filter_all_false : forall (A : Type) (f : A -> bool) l, (forall x, In x l -> f x = false) -> filter f l = [].
+Proof.
+  intros A f l. induction l as [|x l IH]; intros H; [reflexivity|].
+  cbn [filter]. rewrite (H x (or_introl eq_refl)). apply IH. intros y Hy. apply H. right. assumption.
+Qed.
+
+Lemma coins_l_height : forall own l k, In k (coins_l own l) -> exists x, In x l /\ k_height k = pt_h x.
+Proof.
+  intros own l k Hk. apply coins_l_in in Hk. destruct Hk as [x [Hx Hk]].
+  unfold coins_pt in Hk. apply coins_of_outs_in in Hk. exists x. tauto.
+Qed.
+
+Lemma spender_l_height : forall l op a b sh, spender_l l op = Some (a, b, sh) -> exists x, In x l /\ pt_h x = sh.
+Proof.
+  induction l as [|x l IH]; intros op a b sh H.
+  - discriminate.
+  - cbn [spender_l] in H. destruct (spender_pt x op) as [s|] eqn:Hx.
+    + exists x. split; [left; reflexivity|]. unfold spender_pt in Hx.
+      destruct (t_cb (pt_tx x)); [discriminate|].
+      destruct (find_in_ins (t_ins (pt_tx x)) 0%N op); [|discriminate]. congruence.
+    + destruct (IH _ _ _ _ H) as [y [Hy Hh]]. exists y. split; [right|]; assumption.
+Qed.
+
+Lemma rollback_credits_E : forall p own l1 l2 h,
+  (forall x, In x l1 -> pt_h x < h) -> (forall x, In x l2 -> h <= pt_h x) ->
+  rollback_credits (E p own (l1 ++ l2)) h = E p own l1.
+Proof.
+  intros p own l1 l2 h H1 H2. unfold rollback_credits, E.
+  rewrite coins_l_app, mkE_app, filter_app.
+  rewrite (filter_all_true _ _ (mkE p (coins_l own l1) _)).
+  2:{ intros cr Hcr. unfold mkE in Hcr. apply in_map_iff in Hcr. destruct Hcr as [k [Hcr Hk]]. subst cr.
+      cbn [mk_credit c_height]. destruct (coins_l_height _ _ _ Hk) as [x [Hx Hh]]. rewrite Hh.
+      apply Z.ltb_lt. apply H1. assumption. }
+  rewrite (filter_all_false _ _ (mkE p (coins_l own l2) _)).
+  2:{ intros cr Hcr. unfold mkE in Hcr. apply in_map_iff in Hcr. destruct Hcr as [k [Hcr Hk]]. subst cr.
+      cbn [mk_credit c_height]. destruct (coins_l_height _ _ _ Hk) as [x [Hx Hh]]. rewrite Hh.
+      apply Z.ltb_ge. apply H2. assumption. }
+  rewrite app_nil_r. unfold mkE. rewrite map_map. apply map_ext. intros k.
+  cbn [mk_credit c_spent]. rewrite spender_l_app.
+  destruct (spender_l l1 (coin_op k)) as [[[a b] sh]|] eqn:Hs1.
+  - destruct (spender_l_height _ _ _ _ _ Hs1) as [x [Hx Hh]]. specialize (H1 x Hx).
+    destruct (h <=? sh) eqn:Hle; [apply Z.leb_le in Hle; lia|reflexivity].
+  - destruct (spender_l l2 (coin_op k)) as [[[a b] sh]|] eqn:Hs2; [|reflexivity].
+    destruct (spender_l_height _ _ _ _ _ Hs2) as [x [Hx Hh]]. specialize (H2 x Hx).
+    destruct (h <=? sh) eqn:Hle; [reflexivity|apply Z.leb_gt in Hle; lia].
+Qed.
+
+Lemma ptxs_height : forall c x, In x (ptxs c) -> exists b, In b c /\ pt_h x = b_height b.
+Proof.
+  intros c x Hx. unfold ptxs in Hx. apply in_flat_map in Hx. destruct Hx as [b [Hb Hx]].
+  exists b. split; [assumption|]. unfold ptxs_of_block in Hx. apply in_map_iff in Hx.
+  destruct Hx as [t [Hx _]]. subst x. reflexivity.
+Qed.
+
+Theorem rollback_L : forall p own c1 c2 h,
+  (forall b, In b c1 -> b_height b < h) -> (forall b, In b c2 -> h <= b_height b) ->
+  rollback_to (L p own (c1 ++ c2)) h = L p own c1.
+Proof.
+  intros p own c1 c2 h H1 H2. unfold rollback_to, L. cbn [credits synced]. f_equal.
+  - rewrite ptxs_app. apply rollback_credits_E.
+    + intros x Hx. destruct (ptxs_height _ _ Hx) as [b [Hb Hh]]. rewrite Hh. apply H1. assumption.
+    + intros x Hx. destruct (ptxs_height _ _ Hx) as [b [Hb Hh]]. rewrite Hh. apply H2. assumption.
+  - unfold synced_of. rewrite map_app, rev_app_distr, filter_app.
+    rewrite filter_all_false, filter_all_true; [reflexivity| |].
+    + intros e He. apply in_rev in He. apply in_map_iff in He. destruct He as [b [He Hb]]. subst e.
+      cbn [fst]. apply Z.ltb_lt. apply H1. assumption.
+    + intros e He. apply in_rev in He. apply in_map_iff in He. destruct He as [b [He Hb]]. subst e.
+      cbn [fst]. apply Z.ltb_ge. apply H2. assumption.
+Qed.
+
+Lemma linked_heights_split : forall c1 c2 pv,
+  linked pv 0 (c1 ++ c2) ->
+  (forall b, In b c1 -> b_height b < Z.of_nat (length c1)) /\
+  (forall b, In b c2 -> Z.of_nat (length c1) <= b_height b).
+Proof.
+  intros c1 c2 pv Hl. split; intros b Hb.
+  - apply in_split in Hb. destruct Hb as [a [r Hc1]]. subst c1. rewrite <- app_assoc in Hl. cbn [app] in Hl.
+    rewrite (linked_height _ _ _ _ _ Hl). rewrite app_length. cbn [length]. lia.
+  - apply in_split in Hb. destruct Hb as [a [r Hc2]]. subst c2. rewrite app_assoc in Hl.
+    rewrite (linked_height _ _ _ _ _ Hl). rewrite app_length. lia.
+Qed.
+
+(* T2 *)
+Theorem rollback_inverse : forall p own c st k,
+  wf_chain c -> ledger_of_chain p true own c = Ok st -> 0 <= k <= chain_height c ->
+  exists st', ledger_of_chain p true own (firstn (Z.to_nat k + 1) c) = Ok st' /\
+              rollback_to st (k + 1) = st'.
+Proof.
+  intros p own c st k Hwf Hst Hk.
+  rewrite (ledger_of_chain_L p own c Hwf) in Hst. inversion Hst. subst st. clear Hst.
+  set (m := (Z.to_nat k + 1)%nat).
+  assert (Hlen : (m <= length c)%nat). { unfold chain_height in Hk. subst m. lia. }
+  assert (Hsplit : c = firstn m c ++ skipn m c). { symmetry. apply firstn_skipn. }
+  assert (Hflen : length (firstn m c) = m). { apply firstn_length_le. assumption. }
+  assert (Hwfp : wf_chain (firstn m c)).
+  { rewrite Hsplit in Hwf. apply (wf_chain_prefix _ _ Hwf). intros Hnil. rewrite Hnil in Hflen.
+    cbn in Hflen. subst m. lia. }
+  exists (L p own (firstn m c)). split.
+  - apply ledger_of_chain_L. assumption.
+  - destruct (wf_linked _ Hwf) as [pv Hl]. rewrite Hsplit in Hl.
+    destruct (linked_heights_split _ _ _ Hl) as [H1 H2]. rewrite Hflen in H1, H2.
+    rewrite Hsplit at 1. apply rollback_L.
+    + intros b Hb. specialize (H1 b Hb). subst m. lia.
+    + intros b Hb. specialize (H2 b Hb). subst m. lia.
+Qed.
